@@ -1148,4 +1148,283 @@ theorem passthrough_escapes :
     ∧ localResolve srvBase (srvBase ++ [47,116,49] ++ climb) = .ok (srvBase ++ [47,101,116,99]) := by
   decide
 
+/-! ### links made, moved and read through: the tree stays closed under the filesystem's own
+    operations
+
+`Symlink`, `Rename` and `Remove`/`RemoveAll` are confined argument by argument (above).  The
+statements below are about what the TREE looks like after any sequence of such calls — which
+links exist, with which content — and about where the host kernel ends when a later call reads
+through them. -/
+
+/-- every link the session made holds a host path under the base -/
+def KInv (rb : Bool) (cb : List Path) (links : Links) : Prop := ∀ e ∈ links, Under rb cb e.2
+
+theorem kstep_inv (rb : Bool) (cb : List Path) (base : Path) (hcb : Good cb)
+    (hb : base = render rb cb) (h2 : base ≠ [47]) (cwd : List Path) (fuel : Nat) (links : Links)
+    (op : KOp) (hinv : KInv rb cb links) : KInv rb cb (kstep base cwd fuel links op) := by
+  have hres : ∀ p r, localResolve base p = .ok r → Under rb cb r :=
+    fun p r h => resolvePath_under rb cb base p r hcb hb h2 h
+  cases op with
+  | symlink old new ok =>
+    simp only [kstep, kstepG]
+    split
+    · rename_i r1 r2 hr1 hr2
+      split
+      · split
+        · intro e he
+          simp only [List.mem_cons] at he
+          rcases he with rfl | he
+          · exact hres _ _ hr1
+          · exact hinv e he
+        · exact hinv
+      · exact hinv
+    · exact hinv
+  | rename old new ok =>
+    simp only [kstep, kstepG]
+    split
+    · split
+      · split
+        · split
+          · exact hinv
+          · intro e he
+            simp only [List.mem_map, List.mem_filter] at he
+            obtain ⟨e', ⟨he', _⟩, rfl⟩ := he
+            exact hinv e' he'
+        · exact hinv
+      · exact hinv
+    · exact hinv
+  | remove p ok =>
+    simp only [kstep, kstepG]
+    split
+    · split
+      · split
+        · intro e he
+          simp only [List.mem_filter] at he
+          exact hinv e he.1
+        · exact hinv
+      · exact hinv
+    · exact hinv
+
+theorem krun_inv (rb : Bool) (cb : List Path) (base : Path) (hcb : Good cb)
+    (hb : base = render rb cb) (h2 : base ≠ [47]) (cwd : List Path) (fuel : Nat) (ops : List KOp)
+    (links : Links) (hinv : KInv rb cb links) :
+    KInv rb cb (ops.foldl (kstep base cwd fuel) links) := by
+  induction ops generalizing links with
+  | nil => exact hinv
+  | cons op ops ih =>
+    simp only [List.foldl_cons]
+    exact ih _ (kstep_inv rb cb base hcb hb h2 cwd fuel links op hinv)
+
+/-- **`Rename` and `Remove` never change what a link holds** (they move or drop entries): every
+    content in the tree after the call was in the tree before it. -/
+theorem rename_remove_keep_contents (base : Path) (cwd : List Path) (fuel : Nat) (links : Links)
+    (op : KOp) (hop : ∀ o n k, op ≠ .symlink o n k) :
+    ∀ e ∈ kstep base cwd fuel links op, ∃ e' ∈ links, e'.2 = e.2 := by
+  intro e he
+  cases op with
+  | symlink o n k => exact absurd rfl (hop o n k)
+  | rename old new ok =>
+    simp only [kstep, kstepG] at he
+    split at he
+    · split at he
+      · split at he
+        · split at he
+          · exact ⟨e, he, rfl⟩
+          · simp only [List.mem_map, List.mem_filter] at he
+            obtain ⟨e', ⟨he', _⟩, rfl⟩ := he
+            exact ⟨e', he', rfl⟩
+        · exact ⟨e, he, rfl⟩
+      · exact ⟨e, he, rfl⟩
+    · exact ⟨e, he, rfl⟩
+  | remove p ok =>
+    simp only [kstep, kstepG] at he
+    split at he
+    · split at he
+      · split at he
+        · simp only [List.mem_filter] at he
+          exact ⟨e, he.1, rfl⟩
+        · exact ⟨e, he, rfl⟩
+      · exact ⟨e, he, rfl⟩
+    · exact ⟨e, he, rfl⟩
+
+theorem good_filter_plain (cs : List Path) (h : Good cs) : cs.filter plain = cs := by
+  apply List.filter_eq_self.2
+  intro x hx
+  exact (h x hx).1
+
+theorem good_no_dotdot (cs : List Path) (h : Good cs) : ∀ c ∈ cs, c ≠ dotdot :=
+  fun c hc => ((plain_iff c).1 (h c hc).1).2.2
+
+theorem linkAt_mem {links : Links} {loc : List Path} {content : Path}
+    (h : linkAt links loc = some content) : ∃ e ∈ links, e.2 = content := by
+  unfold linkAt at h
+  split at h
+  · rename_i e he
+    simp only [Option.some.injEq] at h
+    exact ⟨e, List.mem_of_find?_eq_some he, h⟩
+  · cases h
+
+/-- the kernel's walk stays under the base: when every link holds an absolute path under the
+    directory with the components `cb`, a walk whose pending path lies under `cb` and has no
+    `..` left ends under `cb` — whatever the links' locations, for every bound on the steps -/
+theorem kwalk_confined (cb : List Path) (links : Links) (hcb : Good cb) (hne : cb ≠ [])
+    (hl : KInv true cb links) :
+    ∀ (fuel : Nat) (cur rest h : List Path), (∀ c ∈ rest, c ≠ dotdot) →
+      (∃ t, cur ++ rest.filter plain = cb ++ t) → kwalk links fuel cur rest = some h →
+      ∃ t, h = cb ++ t := by
+  intro fuel
+  induction fuel with
+  | zero => intro cur rest h _ _ hk; simp [kwalk] at hk
+  | succ fuel ih =>
+    intro cur rest h hnd hpre hk
+    cases rest with
+    | nil =>
+      simp only [kwalk, Option.some.injEq] at hk
+      obtain ⟨t, ht⟩ := hpre
+      exact ⟨t, by rw [← hk]; simpa using ht⟩
+    | cons c rest =>
+      have hnd' : ∀ x ∈ rest, x ≠ dotdot := fun x hx => hnd x (by simp [hx])
+      simp only [kwalk] at hk
+      by_cases hskip : c = [] ∨ c = [46]
+      · rw [if_pos hskip] at hk
+        have hp : plain c = false := by
+          rcases hskip with rfl | rfl <;> decide
+        refine ih cur rest h hnd' ?_ hk
+        simpa [List.filter_cons, hp] using hpre
+      · rw [if_neg hskip] at hk
+        have hdd : c ≠ dotdot := hnd c (by simp)
+        rw [if_neg hdd] at hk
+        have hp : plain c = true := (plain_iff c).2 ⟨fun e => hskip (Or.inl e), fun e => hskip (Or.inr e), hdd⟩
+        have hpre' : ∃ t, (cur ++ [c]) ++ rest.filter plain = cb ++ t := by
+          simpa [List.filter_cons, hp] using hpre
+        split at hk
+        · rename_i content hla
+          obtain ⟨e, he, rfl⟩ := linkAt_mem hla
+          obtain ⟨r', hr', hc⟩ := hl e he
+          have habs : isAbs e.2 = true := by rw [hc]; simp [render, isAbs]
+          have hg := good_append hcb hr'
+          have hsp : split e.2 = [] :: (cb ++ r') := by
+            rw [hc, split_render true _ hg (by simp [hne])]; rfl
+          rw [habs, hsp] at hk
+          simp only [↓reduceIte] at hk
+          refine ih [] _ h ?_ ?_ hk
+          · intro x hx
+            simp only [List.cons_append, List.mem_cons, List.mem_append] at hx
+            rcases hx with rfl | hx | hx
+            · decide
+            · exact good_no_dotdot _ hg x (List.mem_append.2 hx)
+            · exact hnd' x hx
+          · refine ⟨r' ++ rest.filter plain, ?_⟩
+            have h0 : plain ([] : Path) = false := by decide
+            simp [h0, List.filter_append, good_filter_plain _ hcb, good_filter_plain _ hr']
+        · exact ih (cur ++ [c]) rest h hnd' hpre' hk
+
+/-- **Whatever a rooted local filesystem is asked to link, move and remove, a later read ends
+    inside the base.**  For every absolute base that `localfs.New` accepts (other than `/`),
+    every sequence of `Symlink`, `Rename` and `Remove`/`RemoveAll` calls with arbitrary byte
+    strings as arguments and arbitrary outcomes in the kernel (`ok`), every working directory,
+    every later path argument `p` and every bound on the kernel's steps: the host file that the
+    kernel reaches for `p` — following every link the session made, wherever `Rename` moved it
+    or a directory above it — has the base's components as a prefix.  (The links of the model
+    are the ones made through this filesystem; a tree that already contains foreign links is
+    outside the statement.) -/
+theorem linked_read_confined (b0 base : Path) (hbase : newBase b0 = some base)
+    (habs : isAbs b0 = true) (h1 : base ≠ []) (h2 : base ≠ [47])
+    (cwd : List Path) (fuel fuel' : Nat) (ops : List KOp) (p : Path) (h : List Path)
+    (hr : kread base cwd fuel' (krun base cwd fuel ops) p = some h) :
+    ∃ cb t, Good cb ∧ base = render true cb ∧ h = cb ++ t := by
+  obtain ⟨cb, hcb, hb⟩ := newBase_repr b0 base hbase h1
+  rw [habs] at hb
+  have hne : cb ≠ [] := by
+    intro e
+    subst e
+    exact h2 (by simpa [render, joinSep] using hb)
+  have hinv : KInv true cb (krun base cwd fuel ops) :=
+    krun_inv true cb base hcb hb h2 cwd fuel ops [] (by intro e he; cases he)
+  unfold kread at hr
+  split at hr
+  · rename_i r hres
+    obtain ⟨r', hr', hc⟩ := resolvePath_under true cb base p r hcb hb h2 hres
+    have hg := good_append hcb hr'
+    have habs' : isAbs r = true := by rw [hc]; simp [render, isAbs]
+    have hsp : split r = [] :: (cb ++ r') := by
+      rw [hc, split_render true _ hg (by simp [hne])]; rfl
+    unfold hostWalk at hr
+    rw [habs', hsp] at hr
+    simp only [↓reduceIte] at hr
+    obtain ⟨t, ht⟩ := kwalk_confined cb _ hcb hne hinv fuel' [] _ h (by
+        intro x hx
+        simp only [List.mem_cons] at hx
+        rcases hx with rfl | hx
+        · decide
+        · exact good_no_dotdot _ hg x hx) (by
+        refine ⟨r', ?_⟩
+        have h0 : plain ([] : Path) = false := by decide
+        simp [h0, good_filter_plain _ hg]) hr
+    exact ⟨cb, t, hcb, hb, ht⟩
+  · cases hr
+
+theorem cleanComps_rooted_good (cs : List Path) (h : Good cs) : cleanComps true ([] :: cs) = cs := by
+  unfold cleanComps
+  simp only [List.foldl_cons]
+  rw [push_skip true [] [] (Or.inl rfl), foldl_push_plain true [] cs (fun c hc => (h c hc).1)]
+  simp
+
+/-- **No link the filesystem made leads out of the base, wherever it has been moved**: for every
+    absolute base accepted by `localfs.New` (other than `/`) and every sequence of `Symlink`,
+    `Rename`, `Remove`/`RemoveAll` calls (arbitrary arguments, arbitrary outcomes), each link in
+    the resulting tree points — read the way the kernel reads it from the link's CURRENT
+    location — under the base. -/
+theorem links_closed (b0 base : Path) (hbase : newBase b0 = some base)
+    (habs : isAbs b0 = true) (h1 : base ≠ []) (h2 : base ≠ [47])
+    (cwd : List Path) (fuel : Nat) (ops : List KOp) :
+    ∃ cb, Good cb ∧ base = render true cb ∧ linksClosed cb (krun base cwd fuel ops) = true := by
+  obtain ⟨cb, hcb, hb⟩ := newBase_repr b0 base hbase h1
+  rw [habs] at hb
+  have hne : cb ≠ [] := by
+    intro e
+    subst e
+    exact h2 (by simpa [render, joinSep] using hb)
+  have hinv : KInv true cb (krun base cwd fuel ops) :=
+    krun_inv true cb base hcb hb h2 cwd fuel ops [] (by intro e he; cases he)
+  refine ⟨cb, hcb, hb, ?_⟩
+  simp only [linksClosed, List.all_eq_true]
+  intro e he
+  obtain ⟨r', hr', hc⟩ := hinv e he
+  have hg := good_append hcb hr'
+  have habs' : isAbs e.2 = true := by rw [hc]; simp [render, isAbs]
+  have hsp : split e.2 = [] :: (cb ++ r') := by
+    rw [hc, split_render true _ hg (by simp [hne])]; rfl
+  unfold linkTarget
+  rw [habs', hsp]
+  simp only [↓reduceIte]
+  rw [cleanComps_rooted_good _ hg]
+  exact isCompPrefix_append cb r'
+
+-- base "/b"; Symlink("n", "d/l"); Rename("d/l", "l"); then a read of "l"
+def lnkBase : Path := [47,98]
+def lnkOps : List KOp := [.symlink [110] [100,47,108] true, .rename [100,47,108] [108] true]
+
+/-- the code on that session: the moved link still holds `/b/n`, and the read of `l` ends at
+    `/b/n` -/
+theorem moved_link_example :
+    krun lnkBase [] 16 lnkOps = [([[98],[108]], [47,98,47,110])]
+    ∧ kread lnkBase [] 16 (krun lnkBase [] 16 lnkOps) [108] = some [[98],[110]]
+    ∧ linksClosed [[98]] (krun lnkBase [] 16 lnkOps) = true := by decide
+
+example : newBase lnkBase = some lnkBase := by decide
+
+/-- **writing the target RELATIVE to the link's directory (`filepath.Rel(Dir(link), target)`) is
+    NOT equivalent**: at creation the link denotes the same file (a read of `d/l` ends at `/b/n`
+    either way), but after `Rename("d/l", "l")` — both arguments plain in-base paths — the link
+    `/b/l` holds `../n`, the tree is no longer closed, and a read of `l` ends at the host's `/n`,
+    outside the base. -/
+theorem relative_links_escape_after_rename :
+    (lnkOps.take 1).foldl (kstepRel lnkBase [] 16) [] = [([[98],[100],[108]], [46,46,47,110])]
+    ∧ kread lnkBase [] 16 ((lnkOps.take 1).foldl (kstepRel lnkBase [] 16) []) [100,47,108] = some [[98],[110]]
+    ∧ kread lnkBase [] 16 (krun lnkBase [] 16 (lnkOps.take 1)) [100,47,108] = some [[98],[110]]
+    ∧ lnkOps.foldl (kstepRel lnkBase [] 16) [] = [([[98],[108]], [46,46,47,110])]
+    ∧ linksClosed [[98]] (lnkOps.foldl (kstepRel lnkBase [] 16) []) = false
+    ∧ kread lnkBase [] 16 (lnkOps.foldl (kstepRel lnkBase [] 16) []) [108] = some [[110]] := by decide
+
 end Risor.C13
